@@ -1,6 +1,8 @@
 import OFCore.Drv.Main
 import OFCore.Drv.Sim
+import OFCore.Drv.Hst
 open OFCore.Drv
 def main : IO Unit := runLoop fun
   | "sim" :: args => handleSim args
+  | "hst" :: args => handleHst args
   | _ => "BAD"
